@@ -2,10 +2,10 @@ PROPS["C11"] = dict(
     pkg="p_map", hooks=["iterable"], level="exploration", design="DESIGN.md §4 C11",
     technique="structural-invariant PBT: the internal list of the ordered map / of the cache's recency list is walked through an overlay accessor after every generated step (node count, reference counts, deleted nodes), over C10's and C08's generators plus long cache histories",
     rule="map part: C10's cases (canonical exhaustive lists for (2 keys, 2 iterators) and (3 keys, 3 iterators) to the depths in exhaustive_parts, plus rapid "
-         "lists with 2..300 (one case in 30: 1500..5000) keys, up to 24 open iterators and bulk ops that Run expands into single calls); VerifWalk must show: list well linked and ending "
+         "lists with 2..300 (one case in 40, thorough 80: 1500..5000) keys, up to 24 open iterators and bulk ops that Run expands into single calls); VerifWalk must show: list well linked and ending "
          "in the sentinel, nodes == Len()+1+deleted, deleted <= open iterators, refSum == open iterators, and with no iterator open nodes == Len()+1 and "
          "deleted == 0. The walk is O(nodes): on a small map (<= 8 keys and <= 8 open iterators) it follows every single call; on a bigger one it follows "
-         "every max(16, live/4)-th single call, every op of the list (beyond 1024 keys: every bulk op; a bulk op stands for up to 9*Keys calls), every "
+         "every max(16, live/4)-th single call, every op of the list (beyond 1024 keys: every bulk op; a bulk op stands for up to Keys calls, a churn up to 9*Keys), every "
          "final Close and the end of the case. non-trivial = an "
          "iterator was closed on, or advanced off, an entry that was removed while it was parked there. "
          "LRU part: the C08 case generator (all three cache shapes, capacities 1-8 and 64) plus long histories = a drawn pattern of up to 61 calls heavy on "
